@@ -9,6 +9,17 @@ BASE_ASSUMPTIONS = [
 ]
 
 CHECKS = {
+    "C12": {
+        "quick": [
+            {"pkg": "v2", "entries": ["VerifC12Merge"], "params": {"D": 0}},
+        ],
+        "thorough": [
+            {"pkg": "v2", "entries": ["VerifC12Merge"], "params": {"D": 1}},
+            {"pkg": "v2", "entries": ["VerifC12Merge"], "params": {"D": 0, "MAPORDER": 1}},
+        ],
+        "covers": ["c12.merge"],
+        "outside": "keys other than a,b,c; depth beyond D+1; text-level decoding of the patch document (codec axioms)",
+    },
     "C08": {
         "quick": [
             {"pkg": "v2", "entries": ["VerifC08Hunk"], "params": {"N": 2, "RM": 2, "AD": 1}},
@@ -125,7 +136,7 @@ DEFAULT_TECHNIQUE = "bounded symbolic execution of the Go SSA with SMT (z3/cvc5)
 _NA_PENDING = "check not built yet in this session (engine exists; harness pending)"
 NOT_APPLICABLE = {
     "C02": _NA_PENDING, 
-    "C09": _NA_PENDING, "C10": _NA_PENDING, "C11": _NA_PENDING, "C12": _NA_PENDING,
+    "C09": _NA_PENDING, "C10": _NA_PENDING, "C11": _NA_PENDING,
     "C14": _NA_PENDING, "C15": _NA_PENDING, "C17": _NA_PENDING, "C18": _NA_PENDING,
     "C16": ("quantifies over the characters of strings as they pass through yaml.v2's scanner/resolver/emitter and encoding/json "
             "(about 10k lines of third-party reflection- and regexp-driven text code); no Go symbolic engine in the image reaches that "
